@@ -834,6 +834,75 @@ func C16(c *core.Ctx) {
 	c.Import(C17, "R16.12", "a management command racing with the teardown of the face it names can leave a route or next hop on the dead face: the handlers look the face up in a table that the face leaves only after its clean-up (or do not look again after the insertion)", 2, func(k string) bool {
 		return strings.HasPrefix(k, "R17.10:route-face-rechecked-after-insertion") || strings.HasPrefix(k, "R17.10:nexthop-face-rechecked-after-insertion") || strings.HasPrefix(k, "R17.10:route-face-exists")
 	})
+	// ---- R16.13 "face teardown … without data races": what decides the teardown of an idle
+	// face — transportBase.ExpirationPeriod(), called by the face table's expiration handler
+	// (its own goroutine) and by management — reads fields that the face's send and receive
+	// goroutines, or a management command, write while the face runs. Each such field is a
+	// sync/atomic value (or every access holds a lock): a field that ExpirationPeriod reads
+	// and that some function other than a constructor writes — directly, or through the
+	// pointer it holds — is not a plain one.
+	if ep := p.Func("fw/face", "transportBase", "ExpirationPeriod"); ep != nil {
+		read := map[string]*ssa.FieldAddr{}
+		core.InstrsDeep(ep, func(in ssa.Instruction) {
+			if fa, ok := in.(*ssa.FieldAddr); ok {
+				if t, f := core.FieldAddrName(fa); t == "transportBase" {
+					read[f] = fa
+				}
+			}
+		})
+		isCtor := func(fn *ssa.Function) bool {
+			n := core.FuncName(core.RootOf(fn))
+			i := strings.LastIndexByte(n, '.')
+			b := n[i+1:]
+			return fn.Parent() == nil && (strings.HasPrefix(b, "Make") || strings.HasPrefix(b, "Accept") || strings.HasPrefix(b, "New") || strings.HasPrefix(b, "make"))
+		}
+		var fields []string
+		for f := range read {
+			fields = append(fields, f)
+		}
+		sort.Strings(fields)
+		nF := 0
+		for _, f := range fields {
+			fa := read[f]
+			ft := core.Deref(fa.Type())
+			if nt, isN := ft.(*types.Named); isN && nt.Obj().Pkg() != nil && nt.Obj().Pkg().Path() == "sync/atomic" {
+				nF++
+				c.Ok("R16.13", "expiry-input-is-synchronised:"+f, p.Pos(ep.Pos()), "a sync/atomic value")
+				continue
+			}
+			writer := ""
+			for _, fn := range p.FuncsIn(core.ModPath + "/fw/face") {
+				if strings.HasSuffix(p.File(fn.Pos()), "_test.go") || isCtor(fn) {
+					continue
+				}
+				core.Instrs(fn, func(in ssa.Instruction) {
+					st, ok := in.(*ssa.Store)
+					if !ok {
+						return
+					}
+					// a store to the field, or through the pointer the field holds
+					if a, isFA := st.Addr.(*ssa.FieldAddr); isFA {
+						if t, g := core.FieldAddrName(a); t == "transportBase" && g == f {
+							writer = core.FuncName(fn)
+						}
+					}
+					if u, isU := core.Strip(st.Addr).(*ssa.UnOp); isU && u.Op == token.MUL {
+						if a, isFA := u.X.(*ssa.FieldAddr); isFA {
+							if t, g := core.FieldAddrName(a); t == "transportBase" && g == f {
+								writer = core.FuncName(fn)
+							}
+						}
+					}
+				})
+			}
+			if writer == "" {
+				continue // written by constructors only: published before the face runs
+			}
+			nF++
+			c.Viol("R16.13", "expiry-input-is-synchronised:"+f, p.Pos(ep.Pos()), "transportBase."+f+" is read by ExpirationPeriod — from the face table's expiration handler and from management — and written by "+writer+" while the face runs, with no lock and no atomic: a data race on what decides the teardown of the face (go test -race reports the pair)")
+		}
+		c.Floor("R16.13", "fields read by ExpirationPeriod that are written while the face runs", nF, 1)
+	}
 	// ---- R16.9 removing a face from the RIB publishes no intermediate RIB: the forwarding
 	// threads look the FIB up without the RIB mutex, so a walk that removes the face's routes
 	// node by node and refreshes each node's FIB entry on the way publishes next-hop sets
